@@ -44,6 +44,24 @@ def div(a, b):
   return a // b
 
 
+# In-flight calls: (entered, go) events per key; client and server share the process.
+EVENTS = {}
+
+
+def wait_then_boom(key, msg='late'):
+  entered, go = EVENTS[key]
+  entered.set()
+  go.wait(20)
+  raise ValueError(msg)
+
+
+def wait_then_value(key, value):
+  entered, go = EVENTS[key]
+  entered.set()
+  go.wait(20)
+  return value
+
+
 class Box:
   """Stateful object used for remote-object chains."""
 
